@@ -112,3 +112,36 @@ def specFileValues (environment : GoMap) : List (Str × List Seg) → GoMap → 
     | o => .fail o
 
 end CV.Template.Sites
+
+namespace CV.Template.Sites
+open CV.Template
+
+/-! ## Several env files in one include entry (`env_file: [f1, f2, …]`)
+
+`dotenv.GetEnvFromFile` reads the files in order into one `envMap` (`envMap[k] = v` for every variable of the file just
+read); while file *i* is parsed, the lookup closure answers from the current environment first and from `envMap` — the
+files read **before** it — second, and `expandVariables` falls back to the earlier lines of file *i* itself. -/
+
+/-- the lines of one env file read after others: `envMap` holds the earlier files (latest first), `acc` the lines so far -/
+def envFileValues2 (environment envMap : GoMap) : List (Str × Str) → GoMap → FileRes
+  | [], acc => .ok acc
+  | (k, tpl) :: r, acc =>
+    match subst (layered [environment, envMap, acc]) tpl with
+    | .ok v => envFileValues2 environment envMap r ((k, v) :: acc)
+    | o => .fail o
+
+/-- all env files of the entry, in order; a later file overrides an earlier one -/
+def envFilesValues (environment : GoMap) : List (List (Str × Str)) → GoMap → FileRes
+  | [], envMap => .ok envMap
+  | f :: fs, envMap =>
+    match envFileValues2 environment envMap f [] with
+    | .ok m => envFilesValues environment fs (m ++ envMap)
+    | .fail o => .fail o
+
+/-- a string value of a file included with these env files -/
+def siteSubstRawFiles (environment : GoMap) (files : List (List (Str × Str))) (s : Str) : Out :=
+  match envFilesValues environment files [] with
+  | .ok f => subst (lookupEnv (includeEnv environment f)) s
+  | .fail o => o
+
+end CV.Template.Sites
